@@ -1,3 +1,4 @@
+use crate::sync::RwLock;
 use serde::de::DeserializeOwned;
 use tracing::debug;
 
@@ -9,7 +10,7 @@ use std::cmp::Ordering;
 use std::collections::{BTreeMap, HashMap, HashSet};
 use std::fmt::Debug;
 use std::marker::PhantomData;
-use std::sync::{Arc, RwLock};
+use std::sync::Arc;
 
 use super::DbDocument;
 
@@ -107,16 +108,14 @@ where
             {
                 rows = db
                     .iter()
-                    .filter_map(|(k, v)| {
-                        match &items {
-                            Some(items) => {
-                                if items.contains(&k.as_bytes().to_vec().into_boxed_slice()) {
-                                    return Some(v);
-                                }
-                                None
+                    .filter_map(|(k, v)| match &items {
+                        Some(items) => {
+                            if items.contains(&k.as_bytes().to_vec().into_boxed_slice()) {
+                                return Some(v);
                             }
-                            None => Some(v),
+                            None
                         }
+                        None => Some(v),
                     })
                     .collect::<Vec<_>>();
             }
